@@ -19,7 +19,9 @@ def parseDType : Sx → Option DType
   | _ => none
 
 def parseDigit : Sx → Option Digits
-  | .atom "D" => some .double | .atom "S" => some .single | .atom "N" => some .num | _ => none
+  | .atom "D" => some .double | .atom "S" => some .single
+  | .list [.atom "N", t] => t.toNat?.map Digits.num
+  | _ => none
 
 def parseDigits : Sx → Option (Option (Digits × Digits))
   | .atom "-" => some none
@@ -63,7 +65,7 @@ def dtypeSx : DType → Sx
   | .float => .atom "f" | .bool => .atom "b"
   | .int w s => .list [.atom "i", Sx.ofNat w, Sx.ofBool s.signed, Sx.ofBool s.be]
 def digitSx : Digits → Sx
-  | .double => .atom "D" | .single => .atom "S" | .num => .atom "N"
+  | .double => .atom "D" | .single => .atom "S" | .num t => .list [.atom "N", Sx.ofNat t]
 def itemsSx (items : List Item) : Sx := .list (items.map Sx.ofNats)
 
 def vstepSx : VStep → Sx
@@ -129,11 +131,22 @@ def handle : List Sx → Sx
         match setstate params s with
         | some r => .list [qstSx s, qobjSx r]
         | none => .list [qstSx s, .atom "ValueError"]
+      | "sd" => err "sd-needs-pair"
       | "legacy" =>
         match setstate params (legacyQ s) with
         | some r => .list [qstSx (legacyQ s), qobjSx r]
         | none => .list [qstSx (legacyQ s), .atom "ValueError"]
       | _ => err "mode"
+  | [.atom "sd", d0, d1, q] =>
+    -- set_pickle_digits with an already validated pair: the attributes afterwards
+    match parseDigit d0, parseDigit d1, parseQ q with
+    | some d0, some d1, some q =>
+      let r := setDigits (d0, d1) q
+      let dsx := fun (o : Obj) => match o.digits with
+        | some p => Sx.list [digitSx p.1, digitSx p.2]
+        | none => Sx.atom "-"
+      .list [dsx r.self, .list (r.derivs.map fun kd => .list [.atom kd.1, dsx kd.2])]
+    | _, _, _ => err "sd"
   | [.atom "cols", isz, .list rows] =>
     match isz.toNat?, rows.mapM Sx.nats? with
     | some isz, some rows =>
